@@ -1,5 +1,170 @@
-import Solvor.Flow.Model
-/-! Flow: property theorems only (helper lemmas live in Lemmas.lean). -/
+import Solvor.Flow.Lemmas
+/-!
+Flow: the property theorems of C08 (helper lemmas are in `SumLemmas`, `CutLemmas`, `EKLemmas`,
+`EKArcs`).
+
+Vocabulary (`CutLemmas.lean`): `N : Net` = nodes `V`, pooled capacities `cap`, key lists `adj`
+of `capacity[·]`, terminals; `N.Feasible g` = `0 ≤ g ≤ cap` on `V × V` and conservation at every
+node other than `s`, `t`; `N.value g` = net flow into the sink; `N.cutCap S` = capacity of the
+cut `(S, V \ S)`; `N.Saturated g S` = arcs out of `S` full, arcs into `S` empty.
+-/
 namespace Solvor.Flow
+namespace Net
+variable (N : Net)
+
+/-! ## C08 — T-spec: the cut certificate and its Boolean checker -/
+
+/-- **cut_cert**: a feasible flow together with a saturated s-t cut is a maximum flow, and its
+value is the capacity of that cut (which therefore is a minimum cut). -/
+theorem cut_cert (hV : N.V.Nodup) (ht : N.t ∈ N.V) {f : Nat → Nat → Int} (hf : N.Feasible f)
+    {S : List Nat} (hs : N.s ∈ S) (htS : N.t ∉ S) (hsat : N.Saturated f S) :
+    N.value f = N.cutCap S ∧ (∀ g, N.Feasible g → N.value g ≤ N.value f) ∧
+    (∀ S', N.s ∈ S' → N.t ∉ S' → N.cutCap S ≤ N.cutCap S') := by
+  have e := N.value_eq_cutCap hV ht hs htS hf hsat
+  refine ⟨e, fun g hg => ?_, fun S' hs' ht' => ?_⟩
+  · rw [e]; exact N.value_le_cutCap hV ht hs htS hg
+  · rw [← e]; exact N.value_le_cutCap hV ht hs' ht' hf
+
+/-- the feasibility part of the checker decides feasibility (so a `false` verdict on an
+implementation's dict is a genuine violation of the capacity / conservation clause) -/
+theorem chk_feasible_iff (f : FlowT) : (N.chkCap f && N.chkCons f) = true ↔ N.Feasible f.get :=
+  N.chkFeasible_iff f
+
+theorem chk_value_iff (f : FlowT) (val : Int) : N.chkValue f val = true ↔ N.value f.get = val :=
+  N.chkValue_iff f val
+
+/-- **chkMaxFlow_sound**: if the checker accepts `(f, S, val)` then `f` is a feasible flow whose
+net inflow at the sink is `val`, `val` is the capacity of the cut `S`, and no feasible flow has a
+larger value. -/
+theorem chkMaxFlow_sound (hV : N.V.Nodup) (ht : N.t ∈ N.V) (f : FlowT) (S : List Nat) (val : Int)
+    (h : N.chkMaxFlow f S val = true) :
+    N.Feasible f.get ∧ N.value f.get = val ∧ val = N.cutCap S ∧
+      ∀ g, N.Feasible g → N.value g ≤ val := by
+  unfold chkMaxFlow at h
+  simp only [Bool.and_eq_true] at h
+  obtain ⟨⟨⟨h1, h2⟩, h3⟩, h4⟩ := h
+  have hf : N.Feasible f.get := (N.chkFeasible_iff f).1 (by simp [h1, h2])
+  have hv := (N.chkValue_iff f val).1 h3
+  obtain ⟨c1, c2, c3⟩ := (N.chkCut_iff f S).1 h4
+  obtain ⟨e1, e2, _⟩ := N.cut_cert hV ht hf c1 c2 c3
+  exact ⟨hf, hv, by rw [← hv, e1], fun g hg => by rw [← hv]; exact e2 g hg⟩
+
+/-! ## C08 — T-model: the Edmonds-Karp mirror -/
+
+/-- **augment_preserves_feasible**: pushing `path_flow` (the minimum residual, which is ≥ 1)
+along a simple residual s-t path with the cancel-reverse-first rule keeps every capacity
+constraint (anti-parallel arcs included), keeps conservation, and raises the value by exactly
+`path_flow`. -/
+theorem augment_preserves_feasible (h : N.WF) {f : FlowT} (hc : N.CapOK f) (hf : N.Feasible f.get)
+    {vis p : List Nat} (hp : N.GoodPath f vis N.t p) (hvis : ∀ x ∈ vis, x ∈ N.V) {d : Int}
+    (hd : N.pathFlow f p none = some d) :
+    1 ≤ d ∧ N.CapOK (aug f d p) ∧ N.Feasible (aug f d p).get ∧
+      N.value (aug f d p).get = N.value f.get + d := by
+  obtain ⟨g1, _, g3⟩ := N.pathFlow_spec f _ _ _ hd
+  have hd1 : 1 ≤ d := g3 hp.chain (fun m hm => by cases hm)
+  obtain ⟨a1, a2⟩ := N.aug_spec h.nodup (by omega : 0 ≤ d) p f hp.nodup
+    (fun x hx => hvis x (hp.sub x hx)) hc g1
+  have hI : N.LInv (aug f d p) (N.value f.get + d) := by
+    refine ⟨a1, ?_, ?_⟩
+    · intro x hx hs ht
+      have e := hf.cons x hx hs ht
+      rw [a2 N.s N.t hp.head hp.last x, excess_eq, e]
+      simp [hs, ht]
+    · have : ¬ (N.t = N.s) := fun e => h.s_ne_t e.symm
+      rw [a2 N.s N.t hp.head hp.last N.t, excess_eq]
+      simp [this, value]
+  exact ⟨hd1, a1, hI.feasible, hI.value⟩
+
+/-- **ek_terminates**: the fuel `cutCap {s} + 1` is never exhausted – every augmentation raises
+the integer value by ≥ 1 and the value is bounded by the capacity out of the source; each BFS
+ends within `2·|V| + 2` pops. -/
+theorem ek_terminates (h : N.WF) : N.maxFlow.done = true :=
+  (N.loop_spec h _ [] 0 0 0 (LInv.init N h) (by
+    have := N.value_le_cutCap h.nodup h.t_mem (S := [N.s]) (by simp)
+      (by simpa using h.s_ne_t.symm) (LInv.init N h).feasible
+    omega)).done
+
+/-- **ek_certifies**: the visited set of the last BFS contains the source, not the sink, and is
+a saturated cut for the returned flow. -/
+theorem ek_certifies (h : N.WF) :
+    N.s ∈ N.maxFlow.vis ∧ N.t ∉ N.maxFlow.vis ∧ N.Saturated N.maxFlow.flow.get N.maxFlow.vis := by
+  have c := N.loop_spec h ((N.cutCap [N.s]).toNat + 1) [] 0 0 0 (LInv.init N h) (by
+    have := N.value_le_cutCap h.nodup h.t_mem (S := [N.s]) (by simp)
+      (by simpa using h.s_ne_t.symm) (LInv.init N h).feasible
+    omega)
+  exact ⟨c.s_mem, c.t_not_mem, c.saturated⟩
+
+/-- **max_flow_correct** (C08 for the mirror, every well-formed network): the mirror returns,
+the returned table is a feasible flow on pooled capacities, the reported objective is its net
+inflow at the sink, it equals the capacity of a (hence minimum) cut, no feasible flow is larger,
+and the Boolean checker accepts the mirror's own certificate. -/
+theorem max_flow_correct (h : N.WF) :
+    N.maxFlow.done = true ∧ N.Feasible N.maxFlow.flow.get ∧
+    N.value N.maxFlow.flow.get = N.maxFlow.value ∧
+    N.maxFlow.value = N.cutCap N.maxFlow.vis ∧
+    (∀ g, N.Feasible g → N.value g ≤ N.maxFlow.value) ∧
+    (∀ S', N.s ∈ S' → N.t ∉ S' → N.maxFlow.value ≤ N.cutCap S') ∧
+    N.chkMaxFlow N.maxFlow.flow N.maxFlow.vis N.maxFlow.value = true := by
+  have c := N.loop_spec h ((N.cutCap [N.s]).toNat + 1) [] 0 0 0 (LInv.init N h) (by
+    have := N.value_le_cutCap h.nodup h.t_mem (S := [N.s]) (by simp)
+      (by simpa using h.s_ne_t.symm) (LInv.init N h).feasible
+    omega)
+  obtain ⟨e1, e2, e3⟩ := N.cut_cert h.nodup h.t_mem c.feasible c.s_mem c.t_not_mem c.saturated
+  have cv : N.value (N.loop ((N.cutCap [N.s]).toNat + 1) [] 0 0 0).flow.get = N.maxFlow.value := c.value
+  refine ⟨c.done, c.feasible, c.value, ?_, ?_, ?_, ?_⟩
+  · rw [← cv]; exact e1
+  · intro g hg; rw [← cv]; exact e2 g hg
+  · intro S' hs ht; rw [← cv, e1]; exact e3 S' hs ht
+  · unfold chkMaxFlow
+    have f1 := (N.chkFeasible_iff _).2 c.feasible
+    have f2 := (N.chkValue_iff _ _).2 c.value
+    have f3 := (N.chkCut_iff _ _).2 ⟨c.s_mem, c.t_not_mem, c.saturated⟩
+    simp only [Bool.and_eq_true] at f1 ⊢
+    exact ⟨⟨f1, f2⟩, f3⟩
+
+end Net
+
+/-- **max_flow_correct** on the `graph` argument: for every arc list with non-negative integer
+capacities over nodes `0..n-1` (parallel, anti-parallel, self-loop, zero-capacity arcs, arcs into
+the source / out of the sink, unreachable parts all included) and distinct terminals, the mirror
+of the repaired `max_flow` returns a maximum flow with its minimum cut. -/
+theorem max_flow_correct_arcs {n : Nat} {arcs : Arcs} {s t : Nat} (h : ArcsOK n arcs) (hs : s < n)
+    (ht : t < n) (hst : s ≠ t) :
+    let N := Net.ofArcs true n arcs s t
+    N.maxFlow.done = true ∧ N.Feasible N.maxFlow.flow.get ∧
+    N.value N.maxFlow.flow.get = N.maxFlow.value ∧
+    N.maxFlow.value = N.cutCap N.maxFlow.vis ∧
+    (∀ g, N.Feasible g → N.value g ≤ N.maxFlow.value) ∧
+    (∀ S', N.s ∈ S' → N.t ∉ S' → N.maxFlow.value ≤ N.cutCap S') ∧
+    N.chkMaxFlow N.maxFlow.flow N.maxFlow.vis N.maxFlow.value = true :=
+  Net.max_flow_correct _ (Net.ofArcs_wf h hs ht hst)
+
+/-! ### non-vacuity and the negative statement about the unrepaired code -/
+
+/-- the witness of DESIGN §4 C08: s=0, a=1, c=2, b=3, d=4, t=5 -/
+def witnessArcs : Arcs := [(0, 1, 1), (0, 2, 1), (1, 3, 1), (1, 4, 1), (2, 3, 1), (3, 5, 1), (4, 5, 1)]
+
+theorem witness_ok : ArcsOK 6 witnessArcs := by unfold ArcsOK; decide
+
+-- hypotheses of `max_flow_correct_arcs` / `max_flow_correct` / `ek_*` are met by the witness
+example : (Net.ofArcs true 6 witnessArcs 0 5).WF := Net.ofArcs_wf witness_ok (by decide) (by decide) (by decide)
+example : (Net.ofArcs true 6 witnessArcs 0 5).maxFlow.value = 2 := by decide
+
+-- hypotheses of `cut_cert` / `chkMaxFlow_sound` are met by a concrete flow and cut
+example : (Net.ofArcs true 6 witnessArcs 0 5).chkMaxFlow
+    [((0, 1), 1), ((0, 2), 1), ((1, 4), 1), ((2, 3), 1), ((3, 5), 1), ((4, 5), 1)] [0] 2 = true := by decide
+
+/-- **Negative statement about the unrepaired code**: with the key sets of the unrepaired
+construction (`rev := false`: `capacity[v][u]` exists only if an arc `v → u` was given) the mirror
+stops at value 1 on the witness although a feasible flow of value 2 exists – the reverse residual
+arc `b → a` is never followed. -/
+theorem unrepaired_not_maximum :
+    (Net.ofArcs false 6 witnessArcs 0 5).maxFlow.value = 1 ∧
+    (Net.ofArcs false 6 witnessArcs 0 5).maxFlow.done = true ∧
+    ∃ f : FlowT, (Net.ofArcs false 6 witnessArcs 0 5).Feasible f.get ∧
+      (Net.ofArcs false 6 witnessArcs 0 5).value f.get = 2 := by
+  refine ⟨by decide, by decide,
+    [((0, 1), 1), ((0, 2), 1), ((1, 4), 1), ((2, 3), 1), ((3, 5), 1), ((4, 5), 1)], ?_, by decide⟩
+  exact (Net.chkFeasible_iff _ _).1 (by decide)
 
 end Solvor.Flow
